@@ -42,6 +42,7 @@ pub struct Cfg {
     pub rm: String,
     pub off: String,
     pub now: (i64, i64),
+    pub now_ms: i64,
     pub targets: Vec<String>,
 }
 
@@ -54,6 +55,7 @@ impl Cfg {
             rm: "removal-marker".into(),
             off: "+00:00".into(),
             now: (0, 0),
+            now_ms: 0,
             targets: vec![],
         };
         c.update(v);
@@ -84,6 +86,13 @@ impl Cfg {
                 self.now = (x[0].as_i64().unwrap_or(0), x[1].as_i64().unwrap_or(0));
             }
         }
+        // a fraction of a second on top of `now` (milliseconds); reset by every new `now`
+        if v.get("now").is_some() {
+            self.now_ms = 0;
+        }
+        if let Some(x) = v.get("now_ms") {
+            self.now_ms = x.as_i64().unwrap_or(0).clamp(0, 999);
+        }
         if let Some(x) = v.get("targets") {
             self.targets = x
                 .as_array()
@@ -94,7 +103,7 @@ impl Cfg {
     pub fn to_json(&self) -> Value {
         json!({
             "ds": cps(&self.ds), "de": cps(&self.de), "tl": cps(&self.tl), "rm": cps(&self.rm),
-            "off": cps(&self.off), "now": [self.now.0, self.now.1],
+            "off": cps(&self.off), "now": [self.now.0, self.now.1], "now_ms": self.now_ms,
             "targets": self.targets.iter().map(|t| cps(t)).collect::<Vec<_>>(),
         })
     }
@@ -106,7 +115,7 @@ impl Cfg {
             time_limited_configuration: TimeLimitedConfiguration {
                 tag_name: self.tl.clone(),
                 time_offset: self.off.clone(),
-                current: chrono::Local.timestamp_opt(self.epoch(), 0).unwrap(),
+                current: chrono::Local.timestamp_opt(self.epoch(), (self.now_ms * 1_000_000) as u32).unwrap(),
             },
             removal_marker_configuration: RemovalMarkerConfiguration {
                 tag_name: self.rm.clone(),
@@ -261,8 +270,8 @@ fn list_return(out: &str, is_json: bool) -> Value {
     Value::Object(r)
 }
 
-fn rfc3339(day: i64, sec: i64, zone_min: i64) -> String {
-    let t = chrono::DateTime::from_timestamp(day * 86400 + sec, 0).unwrap();
+fn rfc3339(day: i64, sec: i64, ms: i64, zone_min: i64) -> String {
+    let t = chrono::DateTime::from_timestamp(day * 86400 + sec, (ms * 1_000_000) as u32).unwrap();
     let off = chrono::FixedOffset::east_opt((zone_min * 60) as i32).unwrap();
     t.with_timezone(&off).to_rfc3339()
 }
@@ -345,7 +354,7 @@ fn run_cli(op: &Value, file: &mut String, cfg: &Cfg, cli: Option<&str>, events: 
     match current.as_str() {
         "omit" => {}
         "garbage" => args.push("--time-limited-current=not-a-time".into()),
-        _ => args.push(format!("--time-limited-current={}", rfc3339(cfg.now.0, cfg.now.1, zone_min))),
+        _ => args.push(format!("--time-limited-current={}", rfc3339(cfg.now.0, cfg.now.1, cfg.now_ms, zone_min))),
     }
     // targets: the behaviour says which go through the file and which through flags
     let file_targets: Vec<String> = op.get("file_targets").and_then(|x| x.as_array()).map(|a| a.iter().map(from_cps).collect()).unwrap_or_default();
@@ -534,7 +543,7 @@ fn exec(op: &Value, file: &mut String, cfg: &mut Cfg, events: &mut Vec<Value>, o
             let to = from_cps(&op["to"]);
             let r = guarded(|| {
                 let ev = TimeLimitedEvaluator {
-                    current_time: chrono::Local.timestamp_opt(cfg.epoch(), 0).unwrap(),
+                    current_time: chrono::Local.timestamp_opt(cfg.epoch(), (cfg.now_ms * 1_000_000) as u32).unwrap(),
                     time_offset: cfg.off.clone(),
                 };
                 let attrs = if has {
